@@ -191,9 +191,16 @@ def setup_task_paths(paths_in, paths_out, allowed_input_suffixes):
     for ii, po in enumerate(paths_out):
         if po.suffix != ".rtdc":
             paths_out[ii] = po.with_name(po.name + ".rtdc")
-    [po.unlink() for po in paths_out if po.exists()]
-
     paths_temp = [po.with_suffix(".rtdc~") for po in paths_out]
+
+    # Never remove or overwrite an input file
+    for pp in paths_out + paths_temp:
+        for pi in paths_in:
+            if pp.resolve() == pi.resolve():
+                raise ValueError(
+                    f"Output path '{pp}' must not point to input file '{pi}'!")
+
+    [po.unlink() for po in paths_out if po.exists()]
     [pt.unlink() for pt in paths_temp if pt.exists()]
 
     # convert lists back to paths
